@@ -543,3 +543,34 @@ Proof.
   destruct (sat_in_table ke A se f HL Hks mall rhs m (wf_kwf e ke m Hwf)) as [_ Hs].
   apply (witness_script_accepts e ke A HA Hse m t Ht Hb Hwf Hnm). exact (Hs l bs Es Hsat).
 Qed.
+
+(* Descriptor level, P2WSH: the witness [items ..., script] validates against the program
+   sha256(script), provided the serialised script parses back (C04: ser_parse) and the
+   standardness size limits hold for this script and witness (C09: the library's figures). *)
+From Verif Require Import Spend.
+Theorem model_wsh_spends (e : env) (ke : keyenv) (A : assets) (se : senv) (f : fill) :
+  linked ke A se f -> (forall ks, length (ksort ke ks) = length ks) ->
+  assets_ok (with_sv e SvWitnessV0) ke A -> (forall kbs, e_sigok e kbs [] = false) ->
+  forall (mall rhs : bool) (m : ms) (t : ty),
+    type_of m = ROk t -> c_base (t_corr t) = BB -> wf (with_sv e SvWitnessV0) ke m -> no_multi m ->
+    forall bs, satisfy ke se f mall rhs m = Some bs ->
+    let sb := serialize (enc ke m) in
+    parse_script sb = Some (enc ke m) ->
+    (blen sb <= 3600)%N -> (N.of_nat (length bs) <= 100)%N -> forallb (fun it => N.leb (blen it) 80) (rev bs) = true ->
+    (count_nonpush_ops (enc ke m) <= 201)%N ->
+    verify_wsh e (e_sha256 e sb) (bs ++ [sb]) = true.
+Proof.
+  intros HL Hks HA Hse mall rhs m t Ht Hb Hwf Hnm bs Hsat sb Hparse H1 H2 H3 H4.
+  unfold verify_wsh. rewrite rev_app_distr. cbn [rev app].
+  rewrite bytes_eqb_refl. cbn [andb].
+  replace (N.leb (blen sb) 3600) with true by (symmetry; apply N.leb_le; exact H1).
+  rewrite rev_length. replace (N.leb (N.of_nat (length bs)) 100) with true by (symmetry; apply N.leb_le; exact H2).
+  rewrite H3. cbn [andb]. rewrite Hparse.
+  replace (N.leb (blen sb) 10000) with true by (symmetry; apply N.leb_le; lia).
+  replace (N.leb (count_nonpush_ops (enc ke m)) 201) with true by (symmetry; apply N.leb_le; exact H4).
+  cbn [andb].
+  pose proof (model_satisfaction_spends (with_sv e SvWitnessV0) ke A se f HL Hks HA Hse mall rhs m t Ht Hb Hwf Hnm bs Hsat) as Hacc.
+  unfold accepts in Hacc. unfold final_ok.
+  destruct (exec (with_sv e SvWitnessV0) (enc ke m) {| stk := rev bs; alt := [] |}) as [st|]; [|discriminate].
+  exact Hacc.
+Qed.
